@@ -29,15 +29,15 @@ From VZ Require Model.K10_Assembly Model.K7_Ngrams.
 Import ListNotations.
 Open Scope Z_scope.
 
-Module A := K10_Assembly.
-Module N := K7_Ngrams.
+Module KA := K10_Assembly.
+Module KN := K7_Ngrams.
 
-Definition zdict (d : dict Z) : A.dict := map (fun e => (fst e, Z.of_nat (snd e))) d.
+Definition zdict (d : dict Z) : KA.dict := map (fun e => (fst e, Z.of_nat (snd e))) d.
 Definition zseq (s : list nat) : list Z := map Z.of_nat s.
 
 Record ngv_params := {
   np_size : nat;                 (* ngram_size *)
-  np_beh : N.behaviour;          (* ngram_behaviour *)
+  np_beh : KN.behaviour;          (* ngram_behaviour *)
   np_mask : option Z;            (* mask_string *)
   np_nullify : bool              (* nullify_mask *)
 }.
@@ -45,20 +45,20 @@ Record ngv_params := {
 (* _token_dictionary_, _inverse_token_dictionary_, column_label_dictionary_, _mask_ngram_index *)
 Record ngv_model := {
   nv_dict : dict Z;
-  nv_inv : A.dict;
-  nv_cold : N.gdict;
+  nv_inv : KA.dict;
+  nv_cold : KN.gdict;
   nv_mask_col : option Z
 }.
 
-Definition count_doc_skip (skip : option Z) (inv : A.dict) (cold : N.gdict) (grams : list (list Z)) : A.dict :=
+Definition count_doc_skip (skip : option Z) (inv : KA.dict) (cold : KN.gdict) (grams : list (list Z)) : KA.dict :=
   fold_left (fun counter g =>
-               match N.col_of inv cold g with
+               match KN.col_of inv cold g with
                | Some c => if match skip with Some mc => c =? mc | None => false end then counter
-                           else N.incr c counter
+                           else KN.incr c counter
                | None => counter
                end) grams [].
 
-Definition count_matrix (M : ngv_model) (gram_docs : list (list (list Z))) : A.matrix :=
+Definition count_matrix (M : ngv_model) (gram_docs : list (list (list Z))) : KA.matrix :=
   (Z.of_nat (length gram_docs), Z.of_nat (length (nv_cold M)),
    flat_map (fun i => map (fun cv => (Z.of_nat i, fst cv, snd cv))
                           (count_doc_skip (nv_mask_col M) (nv_inv M) (nv_cold M) (nth i gram_docs [])))
@@ -71,45 +71,45 @@ Variable f64to32 : Z -> Z.
 Variable one64 : Z.
 Variable prm : ngv_params.
 (* second-stage vocabulary: (token dictionary, inverse dictionary, n-grams of the re-indexed corpus) -> columns *)
-Variable learn_cold : A.dict -> A.dict -> list (list (list Z)) -> res N.gdict.
+Variable learn_cold : KA.dict -> KA.dict -> list (list (list Z)) -> res KN.gdict.
 
 Notation preprocess := (preprocess Z Z.eqb Z.ltb matches f32div f64div f64to32 one64).
 
 Definition grams_of (seqs : list (list nat)) : list (list (list Z)) :=
-  map (fun s => N.ngrams_of (zseq s) (np_size prm) (np_beh prm)) seqs.
+  map (fun s => KN.ngrams_of (zseq s) (np_size prm) (np_beh prm)) seqs.
 
-Definition ngv_fit (c : config Z) (td : option (dict Z)) (nd : option N.gdict) (X : list (list Z))
-  : res (ngv_model * A.matrix) :=
+Definition ngv_fit (c : config Z) (td : option (dict Z)) (nd : option KN.gdict) (X : list (list Z))
+  : res (ngv_model * KA.matrix) :=
   match preprocess c X td (np_mask prm) with
   | Err e => Err e
   | Ok (token_sequences, d, fr) =>
-      let inv := N.invert (zdict d) in
+      let inv := KN.invert (zdict d) in
       let ngrams := grams_of token_sequences in
       match (match nd with
              | Some g => Ok g
-             | None => if (np_size prm =? 1)%nat then Ok (N.bare_dict (zdict d)) else learn_cold (zdict d) inv ngrams
+             | None => if (np_size prm =? 1)%nat then Ok (KN.bare_dict (zdict d)) else learn_cold (zdict d) inv ngrams
              end) with
       | Err e => Err e
       | Ok cold =>
           let mc := if np_nullify prm
-                    then N.glookup (N.Tup (repeat (Z.of_nat (length fr)) (np_size prm))) cold
+                    then KN.glookup (KN.Tup (repeat (Z.of_nat (length fr)) (np_size prm))) cold
                     else None in
           let M := {| nv_dict := d; nv_inv := inv; nv_cold := cold; nv_mask_col := mc |} in
           Ok (M, count_matrix M ngrams)
       end
   end.
 
-Definition ngv_fit_transform (c : config Z) (td : option (dict Z)) (nd : option N.gdict) (X : list (list Z))
-  : res A.matrix :=
+Definition ngv_fit_transform (c : config Z) (td : option (dict Z)) (nd : option KN.gdict) (X : list (list Z))
+  : res KA.matrix :=
   match ngv_fit c td nd X with Ok (_, train) => Ok train | Err e => Err e end.
 
-Definition ngv_transform (M : ngv_model) (X : list (list Z)) : res A.matrix :=
+Definition ngv_transform (M : ngv_model) (X : list (list Z)) : res KA.matrix :=
   match preprocess (default_config Z) X (Some (nv_dict M)) (np_mask prm) with
   | Err e => Err e
   | Ok (token_sequences, _, _) => Ok (count_matrix M (grams_of token_sequences))
   end.
 
-Definition ngv_transform_unrepaired (M : ngv_model) (X : list (list Z)) : res A.matrix :=
+Definition ngv_transform_unrepaired (M : ngv_model) (X : list (list Z)) : res KA.matrix :=
   match preprocess (default_config Z) X (Some (nv_dict M)) None with
   | Err e => Err e
   | Ok (token_sequences, _, _) => Ok (count_matrix M (grams_of token_sequences))
@@ -118,5 +118,5 @@ Definition ngv_transform_unrepaired (M : ngv_model) (X : list (list Z)) : res A.
 End Ngv.
 
 (* the fitted state as a Model/K7_Ngrams.v model *)
-Definition to_K7 (prm : ngv_params) (M : ngv_model) : N.ng_model :=
+Definition to_K7 (prm : ngv_params) (M : ngv_model) : KN.ng_model :=
   (zdict (nv_dict M), nv_inv M, nv_cold M, np_size prm, np_beh prm).
